@@ -116,6 +116,26 @@ def run(ctx):
                     continue
                 ctx.evaluations += 1
                 compare(ctx, sess, keys, x, y, {'lhs': {'parse': wrap % ta}, 'rhs': {'parse': wrap % tb}})
+        # edges that must be merged after an operation rewrote only some of the children (first / last / middle range; and, or, restrict)
+        MERGE = [(('and', "(python_full_version < '3.8' and os_name == 'x') or python_full_version >= '3.9'", "os_name == 'y'"), "python_full_version >= '3.9' and os_name == 'y'"),
+                 (('and', "(python_full_version >= '3.9' and os_name == 'x') or python_full_version < '3.8'", "os_name == 'y'"), "python_full_version < '3.8' and os_name == 'y'"),
+                 (('and', "(python_full_version >= '3.8' and python_full_version < '3.9' and os_name == 'x') or python_full_version < '3.7' or python_full_version >= '3.10'", "os_name == 'y'"),
+                  "(python_full_version < '3.7' or python_full_version >= '3.10') and os_name == 'y'"),
+                 (('and', "(os_name < 'b' and extra == 'x') or os_name >= 'c'", "extra != 'x'"), "os_name >= 'c' and extra != 'x'"),
+                 (('or', "(python_full_version < '3.8' or os_name == 'x') and python_full_version < '3.9'", "os_name != 'x'"), "python_full_version < '3.9' or os_name != 'x'"),
+                 (('simpx', "(python_full_version < '3.8' and extra == 'a') or (python_full_version >= '3.8' and python_full_version < '3.9')", ['a']), "python_full_version < '3.9'"),
+                 (('simpx', "(os_name < 'b' and extra != 'a') or os_name >= 'b'", ['a']), "os_name >= 'b'"),
+                 (('simpx', "(python_full_version >= '3.9' and extra == 'a') or (python_full_version >= '3.8' and python_full_version < '3.9')", ['a']), "python_full_version >= '3.8'")]
+        for (k, ta, arg), tw in MERGE:
+            ra, rw = sess.parse(ta)[0], sess.parse(tw)[0]
+            if ra is None or rw is None:
+                continue
+            x = sess.op(k, ra, sess.parse(arg)[0])[0] if k in ('and', 'or') else sess.op('simpx', ra, [S(e) for e in arg])[0]
+            if x is None:
+                ctx.failure('an operation panicked while building an identity', {'op': k, 'operand': ta})
+                continue
+            ctx.evaluations += 1
+            compare(ctx, sess, keys, x, rw, {'law': 'merge-after-' + k, 'lhs': markers.describe(sess, x), 'rhs': {'parse': tw}}, same=True)
         for _ in range(350 if quick else 1500):
             try:
                 x, y, law = identities(ctx, sess, regs, fam)
